@@ -192,9 +192,18 @@ func similarityOf2(t model2d.DistTransform, inner ref.Shape2) (*ref.Similarity2,
 	return &ref.Similarity2{Inner: inner, M: cols, S: s, T: t0}, true
 }
 
-func transformedSubject2(rng *rand.Rand) *subject2 {
+func transformedSubject2(rng *rand.Rand) *subject2 { return transformedSubject2Depth(rng, 0) }
+
+func transformedSubject2Depth(rng *rand.Rand, depth int) *subject2 {
 	var inner *subject2
-	if rng.Intn(4) == 0 {
+	nested := false
+	if depth < 2 && rng.Intn(3) == 0 {
+		inner = transformedSubject2Depth(rng, depth+1)
+		if inner == nil {
+			return nil
+		}
+		nested = true
+	} else if rng.Intn(4) == 0 {
 		inner = meshSubject2(rng, 0)
 		if inner == nil {
 			return nil
@@ -224,6 +233,9 @@ func transformedSubject2(rng *rand.Rand) *subject2 {
 	sim, ok := similarityOf2(t, inner.ref)
 	if !ok {
 		return nil
+	}
+	if nested {
+		name = "nested " + name
 	}
 	return &subject2{api: "model2d.TransformCollider[" + name + "]", short: "Transformed", far: 300,
 		coll: model2d.TransformCollider(t, inner.coll), ref: sim}
